@@ -29,7 +29,7 @@ ALLOC = {'manage', 'manage_obj', 'manage_str'}
 CALLBACK = {'call', 'call_method', 'get_method'}
 
 # natives whose demonstration needs a particular program: struct -> replay
-REPLAYS = {}
+REPLAYS = {'IterReduce': dict(kind='lay', source="// Iter.reduce keeps only the INITIAL accumulator rooted; the value returned by\n// the callback lives in a Rust local while iter.next() runs user code that allocates.\nlet r = [1, 2, 3].iter().map(|x| 'a${x}').reduce('', |acc, x| acc + x + '-');\nprint(r);\n", gc_stress=True, expect_stdout='a1-a2-a3-\n', note='the accumulator returned by the callback is only held by the native while the next element is produced (collect-at-every-allocation build)')}
 
 
 def _ids(e, v, out, depth=0):
@@ -70,6 +70,79 @@ def _has_hooks(e, args):
         if isinstance(v, Opaque) and str(getattr(v, 'ty', '')).split('::')[-1] in ('Hooks', 'GcHooks', 'ValueHooks'):
             return True
     return False
+
+
+_PROTECTS = {}
+
+
+def list_growth_protects(P):
+    """decide on the real List::push / List::insert (MIR): whenever ensure_capacity is asked for more than the capacity (it allocates the
+    bigger list then), the value being added has been handed to push_root and not released yet.  Returns (ok, detail)."""
+    key = id(P)
+    if key in _PROTECTS:
+        return _PROTECTS[key]
+    from mirsym.engine import Engine
+    detail = {}
+    ok_all = True
+    for meth in ('push', 'insert'):
+        f = P.lookup('List::' + meth)
+        if f is None:
+            ok_all, detail[meth] = False, 'not located'
+            continue
+        e = Engine(P, loop_bound=3, timeout_s=60)
+        ll = P.enum_def('laythe_core::object::ListLocation') or P.enum_def('ListLocation')
+
+        def m_state(e_, a, c, ll=ll):
+            return EnumV(ll.name, ll.vindex['Here'], {'Here': {0: Cell(z3.BitVec('list_cap', 64))}}, None, ll)
+        e.model(r'^(laythe_core::)?(object::)?(list::)?List::state$', m_state)
+        e.model(r'^(laythe_core::)?(collections::)?(\w+::)*RawSharedVector::read_len$', lambda e_, a, c: z3.BitVec('list_len', 64))
+
+        def m_root(e_, a, c):
+            e_.path_state['roots'].append(a[1])
+            return UNIT
+        e.model(r'^(laythe_core::)?(hooks::)?GcHooks::push_root$', m_root)
+
+        def m_unroot(e_, a, c):
+            n = conc(z3.simplify(a[1])) if z3.is_bv(a[1]) else a[1]
+            for _ in range(int(n or 0)):
+                if e_.path_state['roots']:
+                    e_.path_state['roots'].pop()
+            return UNIT
+        e.model(r'^(laythe_core::)?(hooks::)?GcHooks::pop_roots$', m_unroot)
+
+        def m_ensure(e_, a, c):
+            grows = e_.fork_bool(z3.UGT(a[1], a[2]))
+            if grows:
+                e_.path_state['growths'].append(len(e_.path_state['roots']))
+            return a[0].cell.get(e_) if isinstance(a[0], Ref) else a[0]
+        e.model(r'^(laythe_core::)?(object::)?(list::)?List::ensure_capacity$', m_ensure)
+        e.allow_havoc(r'^(laythe_core::)?(collections::)?(\w+::)*RawSharedVector::\w+$', r'^(std::ptr::|core::ptr::)?(copy|write|read)$',
+                      r'^(std|core)::ptr::(mut_ptr|const_ptr)::<impl \*(mut|const) .*>::\w+$', r'^(std::intrinsics::|core::intrinsics::)?copy$')
+
+        def path(e, f=f, meth=meth):
+            e.path_state['roots'] = []
+            e.path_state['growths'] = []
+            lst = Struct('List', None, NameBacking('the_list'))
+            val = e.fresh(VALUE, 'added_value')
+            ln, cap = z3.BitVec('list_len', 64), z3.BitVec('list_cap', 64)
+            e.add_constraint(z3.And(z3.ULE(ln, cap), z3.ULT(cap, 1 << 40)))
+            hooks = Ref(Cell(Opaque('GcHooks', 'hooks')))
+            args = [Ref(Cell(lst)), val, hooks] if meth == 'push' else [Ref(Cell(lst)), z3.BitVec('at', 64), val, hooks]
+            e.call(f, args)
+            return {'growths': list(e.path_state['growths']), 'left': len(e.path_state['roots'])}
+        try:
+            results = e.explore(path)
+        except Unsupported as ex:
+            ok_all, detail[meth] = False, 'not encoded: ' + str(ex)[:120]
+            continue
+        grew = [r for r in results if r.kind == 'ok' and isinstance(r.info, dict) and r.info['growths']]
+        bad = [r for r in results if r.kind not in ('ok', 'infeasible')]
+        good = bool(grew) and not bad and all(all(g >= 1 for g in r.info['growths']) and r.info['left'] == 0 for r in grew)
+        detail[meth] = {'paths': len(results), 'growing paths': len(grew), 'value rooted at the allocation and released afterwards': good,
+                        'not encoded': [str(r.info)[:100] for r in bad][:2]}
+        ok_all = ok_all and good
+    _PROTECTS[key] = (ok_all, detail)
+    return _PROTECTS[key]
 
 
 class Rooting:
@@ -121,6 +194,9 @@ class Rooting:
         if name in ALLOC:
             born = [i for i in res_ids if i not in nb and i not in self.seen]
             self.pending = not born
+        elif name in ('call', 'call_method'):
+            # the value a callback returns: possibly an object only this native holds
+            born = [i for i in res_ids if i not in nb and i not in self.seen]
         elif self.pending and name in ('new', 'from'):
             # List::new(raw) / Tuple::new(raw): the wrapper around the handle that was just allocated
             wrapped = [i for i in res_ids if i not in nb and i not in self.seen]
@@ -130,6 +206,13 @@ class Rooting:
                 self.seen |= all_ids
                 return
         self.seen |= all_ids
+        # a summarised call that is handed the hooks AND a newborn that nothing protects yet: the callee may allocate before it stores
+        # the value (List::push grows the list first), so the value is at risk inside this very call
+        protects = name in ('push', 'insert') and 'List' in norm and getattr(self, 'list_growth_protects', False)
+        if name not in ALLOC and name not in CALLBACK and name not in NO_COLLECT and how in ('havoc', 'model', 'fallback') and _has_hooks(e, args) and not protects:
+            for x in used:
+                if not self.is_safe(x) and x not in self.risk:
+                    self.violations.append((x, norm, norm + ' itself (it may allocate before it stores the value)'))
         # ownership
         if born:
             for x in used:
@@ -172,6 +255,9 @@ def _k3(res, tier, shard):
                        'a newborn handed to a call on a reachable receiver is assumed stored there (silence rather than alarm)',
                        'callbacks and summarised calls that receive the hooks may collect']
     only = os.environ.get('VERIF_NATIVE')
+    # does the real List::push / insert protect the value it is handed while it allocates the bigger list?  (decided on their MIR)
+    protects_fact = list_growth_protects(P)
+    res.bounds['List::push / insert root the added value while they grow the list (decided on their MIR)'] = protects_fact[1]
     for n_ent, ent in enumerate(table):
         if n_ent % SHARDS != shard:
             continue
@@ -191,6 +277,21 @@ def _k3(res, tier, shard):
         W = NativeCastWorld()
         e = W.e
         shapes = _arg_shapes(meta, extra)
+        # what a callback hands back may be an object nobody else holds (a string it just built): the result is a newborn of this activation
+        _vd = P.enum_def(VALUE)
+        _RES = P.enum_def('Result')
+        _le = P.enum_def('laythe_core::LyError') or P.enum_def('LyError')
+
+        def callback_result(e_, a, c, _vd=_vd, _RES=_RES, _le=_le):
+            k = len(e_.path_state['events'])
+            e_.path_state['events'].append(('hook',))
+            if e_.fork_bool(z3.Bool(f'hook_raises_{k}')):
+                er = EnumV('LyError', _le.vindex['Err'], {'Err': {0: Cell(Opaque('Instance', 'error'))}}, None, _le)
+                return EnumV('Result<Value, LyError>', 1, {'Err': {0: Cell(er)}}, None, _RES)
+            oid = z3.BitVec(e_.fresh_name('callback_object'), 64)
+            v = EnumV(VALUE, _vd.vindex['Obj'], {'Obj': {0: Cell(AbsObj(oid, 'ObjectRef'))}}, None, _vd) if 'Obj' in _vd.vindex else e_.fresh(VALUE, e_.fresh_name('hook_value'))
+            return EnumV('Result<Value, LyError>', 0, {'Ok': {0: Cell(v)}}, None, _RES)
+        e.model(r'^(laythe_core::)?(hooks::)?(Hooks|ValueHooks)::(call|call_method)$', callback_result)
 
         def observer(norm, args, r, how, e=e):
             rt = e.path_state.get('rooting')
@@ -222,6 +323,7 @@ def _k3(res, tier, shard):
             sd = [d for d in sd if d.file == ent['file']]
             me = Struct(ent['struct'], None, NameBacking('native_self')) if sd and sd[0].fields else Struct(ent['struct'], {}, None)
             rt = e.path_state['rooting'] = Rooting()
+            rt.list_growth_protects = protects_fact[0]
             r = e.call(f, [Ref(Cell(me)), Ref(Cell(Opaque('Hooks', 'hooks'))), SliceRef(args, bv(0, 64), bv(len(vals), 64))])
             rt.finish(e, r)
             e.check(True, f'{ent["struct"]}: rooting automaton ran to the end of the activation')
@@ -318,6 +420,7 @@ def k3_iterators(res, tier):
             e.path_state['casts'] = []
             me = Struct(struct, None, NameBacking('iterator_self')) if sds and sds[0].fields else Struct(struct, {}, None)
             rt = e.path_state['rooting'] = Rooting()
+            rt.list_growth_protects = protects_fact[0]
             r = e.call(f, [Ref(Cell(me)), Ref(Cell(Opaque('Hooks', 'hooks')))])
             rt.finish(e, r)
             e.check(True, f'{struct}: rooting automaton ran to the end of the activation')
@@ -351,3 +454,101 @@ def k3_iterators(res, tier):
             outside.append(f'{struct}: {str(unsup[0].info)[:160]}')
     res.bounds['iterators decided'] = decided
     res.outside = (res.outside or []) + ['not encoded: ' + x for x in outside]
+
+
+# ---------------------------------------------------------------------------------------------- the Vm's own error constructor
+F69_REPLAY = dict(kind='lay', source='nil.foo = "value";\n', gc_stress=True, bad_re=r'Internal Error|panicked', bad_exit=[101, 134, -6],
+                  note='the fiber stack is exactly full when the error is raised: ensure_stack allocates, the message string is not rooted (collect-at-every-allocation build)')
+
+
+@obligation('C05.K3.runtime_error_message_rooted', 'C05', programs=('vm',), also=('C16',))
+def k3_runtime_error(res, tier):
+    """Vm::runtime_error from MIR up to the call of the error class: the message string it creates is rooted (or already on the
+    fiber's stack) at every point that can allocate before it is pushed — ensure_stack grows the stack by allocating when the stack is
+    full, for every error the Vm raises"""
+    from mirsym.engine import Engine
+    from .vmabs import VmWorld
+    P = NativeCastWorld().P if False else __import__('vfw.core', fromlist=['get_program']).get_program('vm')
+    e = Engine(P, loop_bound=4, timeout_s=120, max_depth=50)
+    W = VmWorld(e, P)
+    W.havoc_objects(e)
+    f = P.lookup('vm::Vm::runtime_error')
+    res.bounds = {'stack': 'any fill level', 'error class': 'any'}
+    res.assumptions = ['Fiber::ensure_stack may allocate (it grows the stack when it is full) and an allocation may collect']
+    e.models = [m_ for m_ in e.models if not any(x in m_[2] for x in ('push_root', 'pop_roots', 'manage_str', 'ensure_stack'))]
+    e.havoc = [rx for rx in e.havoc if not any(x in rx.pattern for x in ('push_root', 'pop_roots', 'manage_str', 'ensure_stack'))]
+
+    def ev(e_):
+        return e_.path_state.setdefault('trail', [])
+
+    def m_manage_str(e_, a, c):
+        o = AbsObj(z3.BitVec(e_.fresh_name('message'), 64), 'LyStr')
+        ev(e_).append(('newborn', o.id.sexpr()))
+        return o
+    e.model(r'^(vm::)?Vm::manage_str$', m_manage_str)
+    e.model(r'^<(vm::)?Vm as (laythe_core::)?(\w+::)*GcContext>::manage_str$', m_manage_str)
+
+    def m_push_root(e_, a, c):
+        ev(e_).append(('root', _ids(e_, a[1], set())))
+        return UNIT
+    e.model(r'^(vm::)?Vm::push_root$', m_push_root)
+
+    def m_pop_roots(e_, a, c):
+        ev(e_).append(('unroot', conc(z3.simplify(a[1])) if z3.is_bv(a[1]) else a[1]))
+        return UNIT
+    e.model(r'^(vm::)?Vm::pop_roots$', m_pop_roots)
+
+    def m_ensure(e_, a, c):
+        ev(e_).append(('may_collect', 'ensure_stack'))
+        return UNIT
+    e.model(r'^(fiber::)?Fiber::ensure_stack$', m_ensure)
+
+    def m_push(e_, a, c):
+        ev(e_).append(('stacked', _ids(e_, a[1], set())))
+        return UNIT
+    e.model(r'^(fiber::)?Fiber::push$', m_push)
+
+    def m_resolve(e_, a, c):
+        raise PathEnd('stop', 'resolve_call')
+    e.model(r'^(vm::)?Vm::resolve_call$', m_resolve)
+
+    def path(e):
+        st = W.fresh_state(e, room=0)
+        cls = AbsObj(z3.BitVec('error_class', 64), 'ObjRef<Class>')
+        msg = AbsObj(z3.BitVec('message_arg', 64), 'LyStr')
+        try:
+            e.call(f, [Ref(st.vm_cell), cls, msg])
+        except PathEnd as pe:
+            if pe.kind != 'stop':
+                raise
+        trail = ev(e)
+        born = [x[1] for x in trail if x[0] == 'newborn']
+        roots, safe, bad = [], set(), []
+        for t in trail:
+            if t[0] == 'root':
+                roots.append(t[1])
+            elif t[0] == 'unroot':
+                for _ in range(int(t[1] or 0)):
+                    if roots:
+                        roots.pop()
+            elif t[0] == 'stacked':
+                safe |= t[1]
+            elif t[0] == 'may_collect':
+                for b in born:
+                    if b not in safe and not any(b in r for r in roots):
+                        bad.append((b, t[1]))
+        e.check(bool(born), 'runtime_error creates its message')
+        e.check(not bad, 'runtime_error: the message string is rooted or on the stack whenever the stack may grow (allocate)', {'unprotected at': [x[1] for x in bad]})
+        return {'fn': 'runtime_error', 'events': [t[0] for t in trail]}
+    results = e.explore(path)
+    for r in results:
+        for lab, ok, info in list(r.checks):
+            if not ok and 'rooted or on the stack' in lab:
+                res.fail('C05.K3:runtime_error leaves its message unrooted while the stack grows',
+                         'Vm::runtime_error creates the message string and then calls ensure_stack, which allocates when the stack is full, before the string is reachable from '
+                         'anywhere: a collection at that point frees it (every error the Vm raises)', info, replay=F69_REPLAY)
+                r.checks.remove((lab, ok, info))
+        if r.kind in ('oob', 'unreachable', 'ub', 'diverge', 'depth', 'panic'):
+            res.fail(f'C05.K3:runtime_error:{r.kind}', f'runtime_error: path ends in {r.kind}: {str(r.info)[:200]}', {'path': str(r.info)})
+    from vfw.core import summarize_paths
+    summarize_paths(res, e, results, lambda r: r.info if isinstance(r.info, dict) else None, key_prefix='C05.K3:runtime_error:', unwind_ok=False)
